@@ -1313,7 +1313,11 @@ def flw8c(ctx):
     lib = ctx.lib
     b = ctx.fn(lib, "asca::subrule::SubRule::match_contexts_and_exceptions")
     cfg = b.cfg
-    trials = {i for i, t in b.calls() if (callee_path(t) or "").endswith(("SubRule::match_before_env", "SubRule::match_after_env"))}
+    # a trial of one half of an alternative: match_before_env / match_after_env, or a local helper that wraps one of them
+    base_trials = ("asca::subrule::SubRule::match_before_env", "asca::subrule::SubRule::match_after_env")
+    wrappers = {p for p, outs in lib.callgraph.items() if p.startswith("asca::subrule::SubRule::") and p != b.path and any(o in base_trials for o in outs)
+                and not p.endswith(("::insertion_match_exceptions", "::insertion_match", "::insertion_between", "::insertion_after", "::insertion_before"))}
+    trials = {i for i, t in b.calls() if (callee_path(t) or "") in base_trials or (callee_path(t) or "") in wrappers}
     if len(trials) < 4:
         raise AnchorMissing("FLW-8c: match_contexts_and_exceptions: %d calls of match_before_env / match_after_env (expected 4)" % len(trials))
 
